@@ -51,6 +51,10 @@ def cases(tier, seed):      # noqa: F811
     for i in range(60 if tier == 'quick' else 6000):
         yield dict(n=rnd.choice([3, 4, 6]), shared=True, policy='uniform', fine=True, hot=True,
                    disturb=0, seed=seed * 100069 + i)
+    for i in range(24 if tier == 'quick' else 800):
+        yield dict(hang=True, cap=rnd.choice([2048, 8192]), pause=rnd.choice([7.0, 12.0, 30.0]),
+                   nres=rnd.choice([60, 120]), start=rnd.choice([0.5, 2.0, 20.0]),
+                   seed=seed * 100207 + i)
     # (the bulk comes after so that a wall-clock budget cut never drops the family above)
     for c in _base_cases(tier, seed):
         yield c
@@ -68,7 +72,88 @@ def cases(tier, seed):      # noqa: F811
                    sub=True, disturb=0, seed=seed * 100153 + i)
 
 
+def _hang_case(case):
+    """One association of the entity cannot even be opened (its connect hangs) while another
+    one, accepted meanwhile, transfers more than the kernels buffer to a reader that pauses for
+    several seconds: the second must not notice the first."""
+    from pynetdicom2 import applicationentity, sopclass
+    import pydicom
+    world = SimWorld('c20/hang/%s' % case['seed'], with_fs=True)
+    sim = world.sim
+    viol = []
+
+    def v(rule, detail):
+        viol.append({'sig': 'C20 %s' % rule, 'detail': '%s\ncase %r\nhandler errors %r' % (
+            detail, case, world.handler_errors[:1])})
+    try:
+        world.net.capacity = case['cap']
+        world.net.hang_addrs = {('deadhost', 104)}
+        nres = case['nres']
+
+        class Srv(applicationentity.AE):
+            def on_receive_find(self, context, ds):
+                return iter([(_row(k), 0xFF00) for k in range(nres)])
+
+        def _row(k):
+            d = pydicom.Dataset()
+            d.PatientName = 'ROW%03d' % k
+            d.PatientComments = 'c' * 300
+            return d
+        srv = world.make_ae(Srv, 'SRV', 11112, [rc.IMPLICIT_LE], 16384)
+        srv.timeout = 600
+        srv.add_scp(sopclass.qr_find_scp)
+        srv.add_scu(sopclass.verification_scu)
+        world.serve_ae(srv, ADDR)
+        out = {}
+
+        def dialer():
+            try:
+                with srv.request_association({'aet': 'DEAD', 'address': 'deadhost', 'port': 104}):
+                    out['dialer'] = 'associated'
+            except Exception as e:  # pylint: disable=broad-except
+                out['dialer'] = repr(e)
+        world.spawn(dialer, 'dialer', role='other')
+
+        def client():
+            sim.sleep(case['start'])
+            cli = world.make_ae(applicationentity.ClientAE, 'CLI', [rc.IMPLICIT_LE], 16384)
+            cli.timeout = 600
+            cli.add_scu(sopclass.qr_find_scu)
+            try:
+                with cli.request_association({'aet': 'SRV', 'address': ADDR[0],
+                                              'port': ADDR[1]}) as assoc:
+                    q = pydicom.Dataset()
+                    q.PatientName = 'Q'
+                    it = iter(assoc.get_scu(FIND)(q, 3))
+                    got = [next(it)]
+                    # the reader pauses: its provider thread does not run for a while
+                    sim.stall(assoc.dul._sim_task, case['pause'])
+                    got += list(it)
+                    out['got'] = [(str(d.PatientName) if d is not None else None, int(st))
+                                  for d, st in got]
+            except Exception as e:  # pylint: disable=broad-except
+                out['exc'] = e
+        world.spawn(client, 'client', role='user')
+        world.run(tmax=900)
+        world.drain(3.0)
+        want = [('ROW%03d' % k, 0xFF00) for k in range(nres)] + [(None, 0)]
+        if out.get('got') != want:
+            v('association-disturbed-by-another-one-that-cannot-connect',
+              'the reader paused %.0f s with %d bytes of buffering; it received %s of %d results; '
+              'error %r; the other association: %r' % (
+                  case['pause'], case['cap'], len(out.get('got') or []), len(want),
+                  out.get('exc'), out.get('dialer')))
+        return {'violations': viol, 'stats': dict(sim.stats, **{'fault.connect_hangs': 1}),
+                'digest': sim.digest.hexdigest(), 'sched_sig': sim.sched_sig.hexdigest(),
+                'steps': sim.steps, 'vsecs': sim.now - 1000.0, 'nontrivial': True,
+                'sample': {'case': case}}
+    finally:
+        world.close()
+
+
 def run_case(case):
+    if case.get('hang'):
+        return _hang_case(case)
     from pynetdicom2 import applicationentity, sopclass, exceptions
     import pynetdicom2
     import pydicom
